@@ -9,6 +9,7 @@ from fractions import Fraction
 from isomc import impl, pools, mtext, collide, alphabets as A, refmodel as M
 
 ID = "C08"
+TOL = Fraction(1, 1000000)
 TITLE = "Writing a time point out and reading it back is lossless"
 
 FRACTIONS6 = [0.000001, 0.000002, 0.1, 0.123456, 0.25, 0.333333, 0.499999, 0.5, 0.500001, 0.75, 0.9, 0.999998, 0.999999]
@@ -122,24 +123,59 @@ def check_roundtrip(ctx, kind, pdesc, p=None, via=None):
     return p
 
 
-def _time_forms_for(t):
-    """Names of time forms that spell the point's time of day to its full precision."""
-    tf = mtext.time_forms()
-    tod = impl.time_tod(t)
-    out = []
+def _decimal_tod(t):
+    """The time of day the descriptor spells, as an exact decimal number of seconds (0.1 means one tenth)."""
+    from decimal import Decimal
     if t[0] == "hms":
-        out += ["hhmmss_basic", "hhmmss_ext", "hhmmss_fc_basic", "hhmmss_fp_ext"]
+        return Decimal(t[1] * 3600 + t[2] * 60 + t[3])
+    if t[0] == "hmsf":
+        return Decimal(t[1] * 3600 + t[2] * 60 + t[3]) + Decimal(repr(t[4]))
+    if t[0] == "hmf":
+        return Decimal(t[1] * 3600 + t[2] * 60) + Decimal(repr(t[3])) * 60
+    return (Decimal(t[1]) + Decimal(repr(t[2]))) * 3600
+
+
+def _binary(t):
+    """The decimal part the descriptor carries is a binary fraction (exactly representable as a float)."""
+    return t[0] == "hms" or (float(t[-1]) * 2 ** 20) % 1 == 0
+
+
+def _fits(value, digits=6):
+    """value (a Decimal) has at most `digits` decimal places."""
+    return (value * 10 ** digits) % 1 == 0
+
+
+def _time_forms_for(t):
+    """(name, form, same_unit): time forms that spell the point's time of day to its full precision. same_unit: the
+    form's last unit is the unit the point itself carries its decimal on (or the point is in whole seconds); otherwise
+    the form is *finer* than the point and can still spell its value exactly (within six decimals)."""
+    tf = mtext.time_forms()
+    tod = _decimal_tod(t)
+    own = []
+    if t[0] == "hms":
+        own += ["hhmmss_basic", "hhmmss_ext", "hhmmss_fc_basic", "hhmmss_fp_ext"]
         if tod % 60 == 0:
-            out += ["hhmm_basic", "hhmm_ext"]
+            own += ["hhmm_basic", "hhmm_ext"]
         if tod % 3600 == 0:
-            out += ["hh"]
+            own += ["hh"]
     elif t[0] == "hmsf":
-        out += ["hhmmss_fc_basic", "hhmmss_fc_ext", "hhmmss_fp_basic", "hhmmss_fp_ext"]
+        own += ["hhmmss_fc_basic", "hhmmss_fc_ext", "hhmmss_fp_basic", "hhmmss_fp_ext"]
     elif t[0] == "hmf":
-        out += ["hhmm_fc_basic", "hhmm_fc_ext", "hhmm_fp_basic", "hhmm_fp_ext"]
+        own += ["hhmm_fc_basic", "hhmm_fc_ext", "hhmm_fp_basic", "hhmm_fp_ext"]
     else:
-        out += ["hh_fc", "hh_fp"]
-    return [(n, tf[n]) for n in out]
+        own += ["hh_fc", "hh_fp"]
+    finer = []
+    if t[0] in ("hf", "hmf") and t[1] != 24:
+        if t[0] == "hf":
+            if tod % 60 == 0:
+                finer += ["hhmm_basic", "hhmm_ext"]
+            if _fits(tod / 60):
+                finer += ["hhmm_fc_ext", "hhmm_fp_basic"]
+        if tod % 1 == 0:
+            finer += ["hhmmss_basic", "hhmmss_ext"]
+        if _fits(tod):
+            finer += ["hhmmss_fc_ext", "hhmmss_fp_basic"]
+    return [(n, tf[n], True) for n in own] + [(n, tf[n], False) for n in finer]
 
 
 def check_dumps(ctx, kind, c, pdesc):
@@ -154,19 +190,24 @@ def check_dumps(ctx, kind, c, pdesc):
     for dname, (dtoks, dkind, cls, drep) in mtext.date_forms().items():
         if cls != "complete" or dname.startswith("x") != bool(ned):
             continue
-        for tname, (ttoks, tkind, prec) in _time_forms_for(pdesc["t"]):
+        for tname, (ttoks, tkind, prec), same_unit in _time_forms_for(pdesc["t"]):
             for zname in zone_names:
                 ztoks, zkind = zf[zname]
                 if not mtext.compatible(dkind, tkind, zkind):
                     continue
                 if zname == "Z" and pdesc["t"][0] == "hf" and off % 15 != 0:
                     continue   # re-zoning a decimal-hour value by a non-quarter-hour offset leaves the exact domain
-                if zname == "Z" and pdesc["t"][0] == "hms" and tname in ("hhmm_basic", "hhmm_ext", "hh") and (
+                if zname == "Z" and off != 0 and not _binary(pdesc["t"]):
+                    continue   # (the same for any decimal that is not a binary fraction)
+                if zname == "Z" and tname in ("hhmm_basic", "hhmm_ext", "hh") and (
                         (tod - off * 60) % (60 if tname != "hh" else 3600) != 0):
                     continue   # after conversion to UTC this form would no longer carry the full precision
                 fmt = mtext.notation(dtoks + [mtext.lit("T")] + ttoks + ztoks)
                 case = lambda: {"kind": "dump", "mode": kind, "p": pdesc, "fmt": fmt}  # noqa: E731
                 sig = {"dform": dname, "tform": tname, "zform": zname, "h24": pdesc["t"][1] == 24}
+                if not same_unit:
+                    sig["finer_than_point"] = pdesc["t"][0]
+                    sig["binary_fraction"] = _binary(pdesc["t"])
                 ctx.transitions += 2
                 impl._H.ticks = 0
                 try:
@@ -185,7 +226,11 @@ def check_dumps(ctx, kind, c, pdesc):
                     continue
                 ctx.traces += 1
                 r = impl.alpha_fast(q, c)
-                if r[8] is not None or r[7] != inst or not (q == p) or hash(q) != hash(p):
+                if same_unit or sig["binary_fraction"]:
+                    bad = r[8] is not None or r[7] != inst or not (q == p) or hash(q) != hash(p)
+                else:
+                    bad = r[8] is not None or abs(r[7] - inst) > TOL   # decimal text of a non-binary fraction: to 1 us
+                if bad:
                     ctx.violation("dump_roundtrip_instant", sig, case, {"instant": str(inst), "p": impl.sstr(p)},
                                   {"text": text, "parsed": impl.sstr(q), "instant": str(r[7])})
                 ctx.outcome("dump_form", dname + tname + zname)
@@ -282,7 +327,8 @@ def run_unit(unit, ctx):
         _, kind, rep = unit
         impl.set_mode(A.MODE_OF[kind])
         c = M.cal(kind)
-        ts = pools.T_WHOLE[:1] + [["hms", 12, 30, 0], ["hms", 23, 59, 59]] + pools.T_24 + pools.T_DYADIC
+        ts = (pools.T_WHOLE[:1] + [["hms", 12, 30, 0], ["hms", 23, 59, 59]] + pools.T_24 + pools.T_DYADIC + pools.T_GENERAL[:2] +
+              [["hf", 11, 0.125]])
         years = [2000, 2004, 9999, 0] if ctx.tier == "quick" else A.Y_S
         for pdesc in pools.point_descs(kind, rep, ts, [[0, 0], [-5, -30], [14, 0], [0, -30]], years, "small"):
             ctx.state_count += 1
